@@ -54,6 +54,15 @@ CHECKS = {
          "compared exactly, length exactly or to 1e-12, boundary ring-for-ring.",
          "Closed rings; no 0-vertex rings inside a polygon; coordinates exactly representable in the subtype.",
          "DESIGN.md section 3/C14"),
+ "C15": ("exploration", "E1",
+         "bounded exhaustive enumeration of ring-direction assignments and array layouts, post-conditions checked directly",
+         "Every direction assignment (2^rings) of every ring structure (shells x 0..2 holes incl. zero-area and 2-vertex "
+         "rings, degenerate shells, multipolygons), single-element arrays and every 2..3-element array with missing / "
+         "empty elements at every position, full and sliced, 5 subtypes: direction by exact signed area, ring vertex "
+         "sequences, structure, missing preserved, idempotence, input buffers bit-identical, areas, and intersection "
+         "results on every lattice box and point. Kernels run with NUMBA_BOUNDSCHECK=1 so out-of-bounds writes fail loudly.",
+         "Intersection invariance only for inputs whose holes are wound opposite to their shell; holes inside by construction.",
+         "DESIGN.md section 3/C15"),
 }
 
 NOT_YET = {}
